@@ -64,10 +64,25 @@ def log2cpm(v):
     return np.log2(1.0 + 1.0e6 * v / v.sum())
 
 
-def tree_data(with_names=True, drop=None, flat=False):
+HIERARCHY_MAPPER = {'class': 'CCN_class', 'subclass': 'CCN_subclass',
+                    'cluster': 'CCN_cluster'}
+
+
+def tree_data(with_names=True, drop=None, flat=False, hmap=False,
+              shared_label=False):
     d = json.loads(json.dumps(TREE))
+    nm = json.loads(json.dumps(NAME_MAPPER))
+    if shared_label:
+        # the label 'c2' is used at two levels (subclass and cluster)
+        # with different display names
+        d['class']['clsB'] = ['c2', 'subC']
+        d['subclass']['c2'] = d['subclass'].pop('subB')
+        nm['subclass']['c2'] = {'name': 'Sub B (shares its label)'}
+        nm['subclass'].pop('subB')
     if with_names:
-        d['name_mapper'] = json.loads(json.dumps(NAME_MAPPER))
+        d['name_mapper'] = nm
+    if hmap:
+        d['hierarchy_mapper'] = dict(HIERARCHY_MAPPER)
     t = TaxonomyTree(data=d)
     if drop is not None:
         t = t.drop_level(drop)
@@ -129,16 +144,21 @@ def write_query(path, enc='dense', raw=True, cells=None, genes=None):
 class Inputs:
     """input files of one job (never modified by a correct run)"""
 
-    def __init__(self, with_names=True):
+    def __init__(self, with_names=True, hmap=False, shared_label=False):
         root = sandbox_root()
         self.dir = os.path.join(root, 'inputs')
         shutil.rmtree(self.dir, ignore_errors=True)
         os.makedirs(self.dir)
-        self.tree = tree_data(with_names)
+        self.tree = tree_data(with_names, hmap=hmap,
+                              shared_label=shared_label)
+        self.shared_label = shared_label
         self.stats = os.path.join(self.dir, 'reference_stats.h5')
         write_stats(self.stats, self.tree)
         self.markers = os.path.join(self.dir, 'marker_lookup.json')
-        json.dump(MARKERS, open(self.markers, 'w'))
+        mk = dict(MARKERS)
+        if shared_label:
+            mk['subclass/c2'] = mk.pop('subclass/subB')
+        json.dump(mk, open(self.markers, 'w'))
         self.queries = {}
 
     def query(self, enc='dense', raw=True):
